@@ -245,6 +245,25 @@ func runFaultJob(c *Ctl, job *Job, idx int, res *RunResult) {
 		prof.WAdvance = 1
 		prof.Checks["C08"] = true
 		res.Sample = map[string]interface{}{"world": w.Summary(), "config": w.ConfigMap()}
+	case "c04i":
+		// C04 with the real runner: parallel stages, also stages sharing one task
+		if idx%2 == 0 {
+			w = GenOverrideWorld(c.Ch, thorough)
+			w.Contexts = nil
+			for _, t := range w.Tasks {
+				t.Context = ""
+			}
+		} else {
+			gen := IntegGen{MaxTasks: 3, MaxCmd: 2, MaxVar: 2, MaxHook: 1, CondProb: 10, AllowProb: 30, FailProb: 15, HookFailPct: 10,
+				PipelinePct: 100, DurMax: 80, Names: "simple",
+				StageGen: SchedGenParams{MaxStages: 5, NestProb: 0, AllowProb: 30, CondProb: 0, MaxDepth: 0, NoTrueCondWithDeps: true}}
+			w = GenTaskWorld(c.Ch, gen)
+		}
+		prof.Barrier = true
+		prof.UseRunEnter = true
+		prof.UseStageStart = true
+		prof.WAdvance = 1
+		res.Sample = map[string]interface{}{"world": w.Summary()}
 	case "c19":
 		world, variant := idx/3, idx%3
 		reseed(0x19000001, world)
